@@ -49,6 +49,17 @@ def record_call(case):
     log = []
     cfg, fault, entry = case["cfg"], case["fault"], case["entry"]
     b = ss._bpseq(case)
+    if int(case["sid"][1:]) % 3 == 1:
+        # every third structure reaches the library as a dot-bracket TEXT whose levels are not the ones first come
+        # first served would choose (each level moved up by one): what was read must not leak into what is answered
+        from rnapolis.common import BpSeq, DotBracket
+        opening, closing = "([{<ABCDEFGHIJKLMNOPQRSTUVWXY", ")]}>abcdefghijklmnopqrstuvwxy"
+        text = b.fcfs.structure
+        if all(ch == "." or (ch in opening and opening.index(ch) < 28) or (ch in closing and closing.index(ch) < 28)
+               for ch in text):
+            up = {**{opening[k]: opening[k + 1] for k in range(28)}, **{closing[k]: closing[k + 1] for k in range(28)}}
+            b = BpSeq.from_dotbracket(DotBracket.from_string("".join(case["seq"]), "".join(up.get(ch, ch) for ch in text)))
+            c["via"] = "from_dotbracket"
     inc = int(case["sid"][1:]) % 2 == 0      # "not solved" with / without variable values, by structure
     saved = (pulp.HiGHS_CMD, pulp.LpSolverDefault)
     try:
